@@ -835,10 +835,11 @@ def builtin_table(ctx):
     if not lay:
         ctx.fail_closed(['C02'], 'R-TABLE', 'builtins|layout', 'cannot obtain rustc target data layouts')
         return
+    formula_ok = okal and okisr
     for (name, size) in table:
         al_ = max(size, 1)
-        ok = True
-        det = []
+        ok = formula_ok
+        det = [] if formula_ok else ['the alignment formula of the built-in table is not max(size, 1); cannot evaluate it (fail closed)']
         for tgt, L in lay.items():
             exp = expected_layout(name, L)
             if exp is None:
